@@ -60,7 +60,9 @@ def Opts.flags (o : Opts) : Flags := ⟨o.comments, o.flipper, o.suppress⟩
 /-- the file system: normalised absolute paths to text -/
 abbrev FS := List (Path × Str)
 
-def FS.read (fs : FS) (p : Path) : Option Str := (fs.find? (·.1 == p)).map (·.2)
+def FS.read : FS → Path → Option Str
+  | [], _ => none
+  | (k, v) :: rest, p => if k == p then some v else FS.read rest p
 
 structure St where
   env : VEnv := {}
@@ -483,6 +485,38 @@ def verifyArgsHook (ctx : Ctx) (pos0 : Pos) (c : ClsDesc) (args : List Arg) (st 
     | _ => .ok st
   else .ok st
 
+/-- `listify_args`, strip, and — for evaluated commands — `evaluate_args` (then `str()` unless the
+    class wants integers) -/
+def prepareArgs (ctx : Ctx) (c : ClsDesc) (word : Str) (line : Nat)
+    (arg : Option Str) (block : Option (List Node)) (st : St) : R (List Arg) :=
+  match listifyArgs arg block line with
+  | none => raise ctx ⟨line, none⟩ st .invalidArguments
+  | some args =>
+    let args := if c.strip then args.map (fun a => { a with content := .str (strip a.str) }) else args
+    if c.tokenize || startsWith ['$'] (upper word) then
+      evaluateArgs ctx line st true args >>= fun ev =>
+      if c.argType == .int then .ok ev else stringifyArgs ctx line st ev
+    else .ok args
+
+/-- `__verify_all_args`: argument count, `arg_type`, the `verify_args` hook, the `verify_arg` hook of
+    every argument.  Yields the state (a warning may have been added). -/
+def checkArgs (ctx : Ctx) (c : ClsDesc) (line : Nat) (args : List Arg) (st : St) : R St :=
+  let pos0 : Pos := ⟨line, none⟩
+  if !args.isEmpty && c.argReq == .notAllowed then raise ctx pos0 st .invalidArguments
+  else if args.isEmpty && c.argReq == .required then raise ctx pos0 st .invalidArguments
+  else
+    verifyTypes ctx line st c.argType args >>= fun _ =>
+    verifyArgsHook ctx pos0 c args st >>= fun st' =>
+    verifyEach ctx line st' c args >>= fun _ =>
+    .ok st'
+
+/-- the items `__multi_comp` runs: the formatted arguments, or a single `None` -/
+def itemsOf (c : ClsDesc) (args : List Arg) : List (Option Arg) :=
+  if args.isEmpty then [none] else args.map (fun a => some (formatArg c a))
+
+/-- the command name as emitted: without a leading `$` -/
+def nameOf (word : Str) : Str := if startsWith ['$'] (upper word) then word.drop 1 else word
+
 /-- everything `SimpleCommand.compile` does before `__multi_comp`: flipper check, `$` prefix,
     listify, strip, evaluate, the argument-count, type and hook checks, `format_arg`.
     Yields the command name without `$`, the items to run and the state (warnings may be added). -/
@@ -491,26 +525,9 @@ def simplePre (ctx : Ctx) (c : ClsDesc) (word : Str) (line : Nat)
   let pos0 : Pos := ⟨line, none⟩
   if c.flipperOnly && !ctx.opts.flipper then raise ctx pos0 st .invalidCommand else
   if c.cname == "Start" && ctx.file.isNone then raise ctx pos0 st .notAValidCommand else
-  let dollar := startsWith ['$'] (upper word)
-  let name := if dollar then word.drop 1 else word
-  let tok := c.tokenize || dollar
-  match listifyArgs arg block line with
-  | none => raise ctx pos0 st .invalidArguments
-  | some args => do
-    let args := if c.strip then args.map (fun a => { a with content := .str (strip a.str) }) else args
-    let args ← if tok then do
-        let ev ← evaluateArgs ctx line st true args
-        if c.argType == .int then pure ev else stringifyArgs ctx line st ev
-      else pure args
-    if !args.isEmpty && c.argReq == .notAllowed then raise ctx pos0 st .invalidArguments
-    else if args.isEmpty && c.argReq == .required then raise ctx pos0 st .invalidArguments
-    else do
-      verifyTypes ctx line st c.argType args
-      let st ← verifyArgsHook ctx pos0 c args st
-      verifyEach ctx line st c args
-      let args := args.map (formatArg c)
-      let items : List (Option Arg) := if args.isEmpty then [none] else args.map some
-      .ok (name, items, st)
+  prepareArgs ctx c word line arg block st >>= fun args =>
+  checkArgs ctx c line args st >>= fun st' =>
+  .ok (nameOf word, itemsOf c args, st')
 
 /-- `SimpleCommand.compile` -/
 def compileSimple (child : Option ChildFn) (ctx : Ctx) (c : ClsDesc) (word : Str) (line : Nat)
